@@ -91,9 +91,12 @@ func (u *UseCase) UpdateTx(ctx context.Context, oldTxId, newTxId string, filter 
 		}
 	}
 
+	// One sequence for the whole commit: a snapshot taken concurrently must see
+	// all of its keys or none of them.
+	commitSeq := sequence.Next()
 	err = u.fileRepo.RunTransaction(ctx, func(ctx context.Context) error {
 		for i := range files {
-			files[i].Seq = sequence.Next()
+			files[i].Seq = commitSeq
 			err = u.fileRepo.Set(ctx, files[i])
 			if err != nil {
 				return fmt.Errorf("store to tx: %w", err)
